@@ -31,6 +31,9 @@ func runC17(c *Ctx) {
 	ruleSentinelWrapped(c, "C17.7", "storage", "engine")
 	ruleProbeReadOnly(c, "C17.8")
 	ruleListIterationStable(c, "C17.9")
+	ruleOpenFlags(c, "C17.10")
+	ruleNoDestructiveFS(c, "C17.11")
+	ruleRecoveryVisitsAll(c, "C17.12")
 }
 
 func c17Paths(c *Ctx, rule string) {
